@@ -204,6 +204,31 @@ def _run(V, work, tier):
         if not r["strict"]["ok"] or [rnode(y) for y in r["strict"]["trees"]] != want:
             V.add(None, "layout changes the tree: %s reads differently from %s" % (json.dumps(x["text"]), json.dumps(x["orig"])), x)
     V.coverage["layout_variants"] = len(lay)
+    # ---- values BUILT by evaluation (parsed trees never share nodes, these do): deep nesting around a list object that
+    # occurs more than once, and around repeated empty lists; the printed text is compared with the structure's own
+    # rendering and read back by the three readers
+    def render_q(t):
+        if isinstance(t, list):
+            return "()" if not t else "'(" + " ".join(render_q(c) for c in t) + ")"
+        return str(t)
+    built = []
+    inners = [("(list x (list 2 x))", [[1, 2], [2, [1, 2]]]), ("(list () ())", [[], []]), ("(list x x)", [[1, 2], [1, 2]]), ("(list 1 (list x) x)", [1, [[1, 2]], [1, 2]])]
+    for d in (list(range(56, 72)) if not thorough else list(range(40, 140))) + [100, 130, 200]:
+        for src, tree in inners:
+            t = tree
+            for _ in range(d):
+                t = [t]
+            built.append({"id": "b%d/%s" % (d, src), "seq": ["(set 'x (list 1 2)) (set 'v %s) (dotimes (i %d) (set 'v (list v))) (format-string \"{}\" v)" % (src, d)], "cfg": {}, "want": render_q(t)})
+    bres = {r["id"]: r["runs"][0]["evals"][0] for r in driver_json(binary, ["run"], [{k: b[k] for k in ("id", "seq", "cfg")} for b in built], timeout=3300)}
+    rr2 = {r["id"]: r for r in driver_json(binary, ["reader"], [{"id": b["id"], "text": b["want"]} for b in built], timeout=3300)}
+    for b in built:
+        got = bres[b["id"]]["v"]
+        if got.get("t") != "str" or got.get("s") != b["want"]:
+            V.add(None, "a value built by evaluation prints differently from its structure: %s" % b["id"], {"src": b["seq"][0], "printed": str(got.get("s"))[:600], "expected": b["want"][:600]})
+        r = rr2[b["id"]]
+        if not (r["strict"]["ok"] and r["ft"]["ok"] and r["fmt"]["ok"]):
+            V.add(None, "the readers reject the printed form of a deeply nested value: %s" % b["id"], {"text": b["want"][:600]})
+    V.coverage["built_values"] = len(built)
     # ---- leaf law (not decided by the specification): boundary atoms round-trip
     lv = {r["id"]: r for r in driver_json(binary, ["reader"], [{"id": i, "text": t} for i, t in enumerate(LEAVES)])}
     nleaf = 0
